@@ -470,7 +470,7 @@ func (e *c13Env) genAuth(r *lab.Rand, flags int, kind string) *c13Case {
 		s.ALPN = c13ALPNLists[r.Intn(len(c13ALPNLists))]
 		if i == cs.Target {
 			s.Verify, s.Require, s.Skip = flags&1 != 0, flags&2 != 0, flags&4 != 0
-			s.SDS = r.Chance(1, 6)
+			s.SDS = r.Chance(1, 4)
 		} else {
 			// hostile neighbour: the opposite policy (or a random one)
 			if r.Bool() {
@@ -753,6 +753,20 @@ func (e *c13Env) runAuth(conns *c13Conns, cs *c13Case) {
 	cert := e.peerCert(cs, t.CA)
 	o := e.handshakeListener(conns, l, cs, cert, []byte(fmt.Sprintf("auth-%d", cs.Idx)))
 	e.judgeAuth(cs, l, o, cert)
+	if t.SDS && !cs.E2E {
+		// trust rotation: the secret-discovery service replaces only the validation (CA) secret of the context; from then on
+		// "the configured CA" is the new one - the same trust matrix must hold against it
+		cs2 := *cs
+		cs2.Ctxs = append([]c13CtxSpec(nil), cs.Ctxs...)
+		cs2.Ctxs[cs.Target].CA = 1 - t.CA
+		e.sdsMu.Lock()
+		e.sds.SetSecret(l.sdsVal[cs.Target], &types.SdsSecret{Name: l.sdsVal[cs.Target], ValidationPEM: e.pki.CA[cs2.Ctxs[cs.Target].CA].PEM})
+		e.sdsMu.Unlock()
+		cert2 := e.peerCert(&cs2, cs2.Ctxs[cs.Target].CA)
+		o2 := e.handshakeListener(conns, l, &cs2, cert2, []byte(fmt.Sprintf("auth-rotated-%d", cs.Idx)))
+		c.Count("auth:handshakes after a validation-secret rotation", 1)
+		e.judgeAuth(&cs2, l, o2, cert2)
+	}
 }
 
 // judgeAuth: the trust matrix. In e2e cases the MOSN-side fields of o are filled from what the plaintext upstream behind
